@@ -25,6 +25,7 @@ func installOracles(m *Monitors) {
 		&orC16{baseOracle: baseOracle{m}},
 		&orC17{baseOracle: baseOracle{m}},
 		&orC18{baseOracle: baseOracle{m}},
+		&orC19{baseOracle: baseOracle{m}},
 		&orC20{baseOracle: baseOracle{m}},
 	}
 }
